@@ -148,7 +148,8 @@ def show_dict(d):
     """canonical rendering of a parse result IN ITS ITERATION ORDER"""
     if d is None:
         return 'none'
-    return ';'.join(f'{k}={slice_tok(v)}' for k, v in d.items()) or '-'
+    from ..core import istr
+    return ';'.join(f'{istr(k)}={slice_tok(v)}' for k, v in d.items()) or '-'
 
 
 def call(f):
